@@ -449,11 +449,12 @@ func scanWholeRun(c *core.Ctx, scan *ssa.Function, layout map[string][]scanField
 }
 
 var tagScanRows = map[string]string{
-	"own-tag":    "a field carrying the processor's tag yields exactly one property with that tag and the looked-up value; the extract handler is not consulted",
-	"handler":    "otherwise, if an extract handler is configured and accepts the field, exactly one property with the handler's tag (or the processor's) and value",
-	"nothing":    "otherwise no property",
-	"registered": "all properties of the component are handed to SetProperties once, in field order, on the definition registered under the given name",
-	"required":   "the required default is added exactly when the processor demands it and the tag did not say anything",
+	"own-tag":       "a field carrying the processor's tag yields exactly one property with that tag and the looked-up value; the extract handler is not consulted",
+	"handler":       "otherwise, if an extract handler is configured and accepts the field, exactly one property with the handler's tag (or the processor's) and value",
+	"nothing":       "otherwise no property",
+	"registered":    "all properties of the component are handed to SetProperties once, in field order, on the definition registered under the given name",
+	"required":      "the required default is added exactly when the processor demands it and the tag did not say anything",
+	"per-component": "every component is scanned on its own, also a second one of the same type on the same scanner: its properties are built from its own fields and its own handler answers",
 }
 
 // tagScanTable interprets DefaultTagScanDefinitionRegistryPostProcessor.PostProcessDefinitionRegistry.
@@ -630,6 +631,102 @@ func tagScanTable(c *core.Ctx) (rs rows, runs int, fn *ssa.Function, undecided s
 					}
 				}
 			}
+		}
+	}
+	// two components of one type through the same scanner object
+	for _, hasHandler := range []bool{true, false} {
+		var created, registered []string
+		t := newTbl(c)
+		stringModels(t)
+		d := absint.NewTok("scanner", "scanner")
+		d.Attr["zeroed"] = absint.Bool(true)
+		d.Fields["Tag"], d.Fields["Required"], d.Fields["NodeType"] = absint.Str("wire"), absint.Bool(false), absint.Str("Component")
+		handler := absint.NewTok("handler", "func")
+		if hasHandler {
+			d.Fields["ExtractHandler"] = handler
+		} else {
+			d.Fields["ExtractHandler"] = absint.Nil{}
+		}
+		shared := absint.NewTok("T:shared", "type")
+		mkMeta := func(id string) *absint.Tok {
+			meta := absint.NewTok("meta"+id, "meta")
+			b := absint.NewTok("meta"+id+".Base", "base")
+			b.Fields["Type"] = shared
+			meta.Fields["Base"] = b
+			fl := &absint.List{}
+			for i := 0; i < 2; i++ {
+				f := absint.NewTok(fmt.Sprintf("%s%d", id, i), "field")
+				sf := absint.NewTok(f.ID+".StructField", "structfield")
+				tg := absint.NewTok(f.ID+".Tag", "structtag")
+				tg.Attr["own"] = absint.Bool(i == 0) // first field carries the scanner's tag, the second is the handler's business
+				sf.Fields["Tag"] = tg
+				f.Fields["StructField"] = sf
+				fl.Elems = append(fl.Elems, f)
+			}
+			meta.Fields["Fields"] = fl
+			return meta
+		}
+		metas := map[string]*absint.Tok{"A": mkMeta("A"), "B": mkMeta("B")}
+		var cur *absint.Tok
+		t.invoke[ro.DRGetMetaOrRegister] = func(ip *absint.Interp, a []absint.Value) absint.Value { return cur }
+		t.ext["(reflect.StructTag).Lookup"] = func(ip *absint.Interp, a []absint.Value) absint.Value {
+			tg := a[0].(*absint.Tok)
+			if tg.Attr["own"] == absint.Value(absint.Bool(true)) {
+				return absint.Tuple{absint.Str("val"), absint.Bool(true)} // struct tags belong to the type: the same text for both
+			}
+			return absint.Tuple{absint.Str(""), absint.Bool(false)}
+		}
+		t.dynamic = func(ip *absint.Interp, fv absint.Value, a []absint.Value) (absint.Value, bool) {
+			if fv != absint.Value(handler) {
+				return nil, false
+			}
+			f := a[1].(*absint.Tok)
+			return absint.Tuple{absint.Str(""), absint.Str("prefix-of:" + f.ID), absint.Bool(true)}, true // the handler asks the instance
+		}
+		t.callee[newProp] = func(ip *absint.Interp, a []absint.Value) absint.Value {
+			p := absint.NewTok(fmt.Sprintf("P(%s,%s,%s)", absint.Show(a[0]), absint.Show(a[2]), absint.Show(a[3])), "property")
+			created = append(created, p.ID)
+			return p
+		}
+		t.callee[argsM] = func(ip *absint.Interp, a []absint.Value) absint.Value { return a[0] }
+		t.callee[has] = func(ip *absint.Interp, a []absint.Value) absint.Value { return absint.Bool(true) }
+		t.callee[setArg] = func(ip *absint.Interp, a []absint.Value) absint.Value { return nil }
+		t.callee[setProps] = func(ip *absint.Interp, a []absint.Value) absint.Value {
+			if l, ok := a[1].(*absint.List); ok {
+				for _, e := range l.Elems {
+					registered = append(registered, absint.Show(a[0])+"<-"+absint.Show(e))
+				}
+			}
+			return nil
+		}
+		ip := absint.New(t)
+		ip.IsLog, ip.InScope = core.IsLogCall, c.InScope
+		und := ""
+		for _, id := range []string{"A", "B"} {
+			cur = metas[id]
+			out := ip.Run(fn, []absint.Value{d, absint.NewTok("registry", "registry"), absint.NewTok("component"+id, "component"), absint.NewTok("NAME"+id, "key")}, nil)
+			runs++
+			if out.Undecided != nil {
+				und = out.Undecided.Msg
+				break
+			}
+			if out.Panic != nil {
+				registered = append(registered, "PANIC "+out.Panic.Msg)
+			}
+		}
+		if und != "" {
+			return rs, runs, fn, "two components of one type: " + und
+		}
+		var want []string
+		for _, id := range []string{"A", "B"} {
+			want = append(want, fmt.Sprintf("meta%s<-P(%s0,\"wire\",\"val\")", id, id))
+			if hasHandler {
+				want = append(want, fmt.Sprintf("meta%s<-P(%s1,\"wire\",\"prefix-of:%s1\")", id, id, id))
+			}
+		}
+		rs.hit("per-component")
+		if strings.Join(registered, "|") != strings.Join(want, "|") {
+			rs.fail("per-component", fmt.Sprintf("handler=%v: two components A, B of one type scanned by the same scanner: registered %v, expected %v (properties created: %v)", hasHandler, registered, want, created))
 		}
 	}
 	return
